@@ -145,3 +145,67 @@ def noise(rng, n: int, flavour: str | None = None) -> tuple[bytes, str]:
 
 def on_wire(octets: bytes, stuffing: bool) -> bytes:
     return hdlc_ref.stuff(octets) if stuffing else octets
+
+
+def special_frame(rng, ids: IdSource | None = None, kind: str | None = None) -> tuple[bytes, dict, str]:
+    """Well-formed frames at the boundary values of the check sequences (zero / all ones / flag / escape octets) and of the
+    running FCS register (0x0000 in the middle of the information field), and near-maximum frames dense in flag/escape octets."""
+    kind = kind or rng.choice(("hcs_zero", "fcs_zero", "fcs_ffff", "fcs_ends_7d", "fcs_has_7e", "reg_zero_mid", "reg_zero_mid", "near_max_dense", "header_only_fcs_zero"))
+    ftype, seg = 0xA, False
+    if kind in ("hcs_zero", "header_only_fcs_zero"):
+        n_info = 0 if kind == "header_only_fcs_zero" else rng.randint(6, 40)
+        while True:
+            dst = hdlc_ref.address(rng, rng.choice((1, 1, 2)))
+            total = 2 + len(dst) + 1 + 1 + 2 + (n_info + 2 if n_info else 0)
+            fmt = (ftype << 12) | total
+            prefix = bytes((fmt >> 8, fmt & 0xFF)) + dst
+            pair = fcs16.force(fcs16.register(prefix), 0xFFFF)  # register 0xFFFF <=> transmitted check sequence 00 00
+            if pair[0] & 1:  # one-octet source address must have its low bit set
+                src, ctrl = pair[:1], pair[1]
+                break
+        info = info_bytes(rng, n_info, rng.random() < 0.3)
+        if ids is not None and n_info >= 6:
+            info = ids.next() + info[6:]
+        octets = hdlc_ref.build(ftype, seg, dst, src, ctrl, info)
+        assert octets[len(prefix) + 2 : len(prefix) + 4] == b"\x00\x00"
+        return octets, {"type": ftype, "seg": seg, "dst": dst, "src": src, "ctrl": ctrl, "info": info}, kind
+    dst = hdlc_ref.address(rng, rng.choice((1, 1, 2, 4)))
+    src = hdlc_ref.address(rng, rng.choice((1, 1, 2, 4)))
+    ctrl = rng.randrange(256)
+    if kind == "near_max_dense":
+        n = hdlc_ref.max_info_len(len(dst), len(src)) - rng.choice((0, 0, 1, 2, 5))
+        info = bytes(rng.choice((0x7E, 0x7D)) if rng.random() < 0.3 else rng.randrange(256) for _ in range(n))
+        if ids is not None:
+            info = ids.next() + info[6:]
+        return hdlc_ref.build(ftype, seg, dst, src, ctrl, info), {"type": ftype, "seg": seg, "dst": dst, "src": src, "ctrl": ctrl, "info": info}, kind
+    n = rng.randint(20, 60)
+    body = bytearray(info_bytes(rng, n, rng.random() < 0.3))
+    if ids is not None:
+        body[:6] = ids.next()
+    total = 2 + len(dst) + len(src) + 1 + 2 + n + 2
+    fmt = (ftype << 12) | total
+    header = bytes((fmt >> 8, fmt & 0xFF)) + dst + src + bytes((ctrl,))
+    head = header + fcs16.trailer(header)
+    if kind == "reg_zero_mid":
+        pos = rng.randrange(6, n - 9)  # at least 8 plain octets follow
+        body[pos : pos + 2] = fcs16.force(fcs16.register(head + bytes(body[:pos])), 0x0000)
+        for k in range(pos + 2, min(n, pos + 12)):
+            if body[k] in (0x7E, 0x7D):
+                body[k] = 0x11
+    else:
+        target = {"fcs_zero": 0xFFFF, "fcs_ffff": 0x0000, "fcs_ends_7d": (~((0x7D << 8) | rng.randrange(256))) & 0xFFFF,
+                  "fcs_has_7e": (~((rng.randrange(256) << 8) | 0x7E)) & 0xFFFF}[kind]
+        body[n - 2 : n] = fcs16.force(fcs16.register(head + bytes(body[: n - 2])), target)
+    info = bytes(body)
+    octets = hdlc_ref.build(ftype, seg, dst, src, ctrl, info)
+    return octets, {"type": ftype, "seg": seg, "dst": dst, "src": src, "ctrl": ctrl, "info": info}, kind
+
+
+def long_run(rng) -> tuple[bytes, str]:
+    """Long homogeneous runs (deep recursion / quadratic behaviour / limits are only reached by such input)."""
+    v = rng.choice((0x00, 0x0A, 0x30, 0x7D, 0xFF, 0xA0, 0x02, 0x2F, 0x21, 0x28))
+    # even octets never terminate an HDLC address: the library re-scans the whole frame for every such octet (quadratic),
+    # so those runs are kept just above the depth that matters (about 1000)
+    n = rng.choice((950, 1100, 1300)) if v % 2 == 0 else rng.choice((950, 1100, 2100, 3000, 9000))
+    head = rng.choice((b"", b"\x7e", b"\x7e\xa0\x00", b"\x7e\xa7\xff", b"/"))
+    return head + bytes((v,)) * n + rng.choice((b"", b"\x7e", b"\n")), f"long_run_{v:02x}"
